@@ -4,6 +4,7 @@ import (
 	"fmt"
 	"grog/internal/config"
 	"grog/internal/dag"
+	"grog/internal/label"
 	"grog/internal/model"
 	"strings"
 )
@@ -25,6 +26,9 @@ func (s *Selector) SelectTargetsForBuild(
 ) (int, int, error) {
 
 	platformSkipped := 0
+	// nodes whose ancestors have already been selected; keeps the selection linear in the
+	// size of the graph instead of walking every dependency path
+	visited := make(map[label.TargetLabel]bool)
 	for _, node := range graph.GetNodes() {
 		// Match pattern and test flag
 		if s.nodeMatchesFilters(node) {
@@ -34,7 +38,7 @@ func (s *Selector) SelectTargetsForBuild(
 			}
 
 			node.Select()
-			if err := s.selectAllAncestorsForBuild(graph, []string{node.GetLabel().String()}, node); err != nil {
+			if err := s.selectAllAncestorsForBuild(graph, []string{node.GetLabel().String()}, node, visited); err != nil {
 				return 0, 0, err
 			}
 		}
@@ -57,7 +61,14 @@ func (s *Selector) selectAllAncestorsForBuild(
 	graph *dag.DirectedTargetGraph,
 	depChain []string,
 	node model.BuildNode,
+	visited map[label.TargetLabel]bool,
 ) error {
+	if visited[node.GetLabel()] {
+		// all ancestors of this node were already checked and selected
+		return nil
+	}
+	visited[node.GetLabel()] = true
+
 	for _, ancestor := range graph.GetDependencies(node) {
 		nextChain := append(append([]string{}, depChain...), ancestor.GetLabel().String())
 		if !nodeMatchesPlatform(ancestor) {
@@ -67,7 +78,7 @@ func (s *Selector) selectAllAncestorsForBuild(
 		}
 
 		ancestor.Select()
-		if err := s.selectAllAncestorsForBuild(graph, nextChain, ancestor); err != nil {
+		if err := s.selectAllAncestorsForBuild(graph, nextChain, ancestor, visited); err != nil {
 			return err
 		}
 	}
